@@ -54,6 +54,8 @@ DIRECTED = [
     [C(0, True), Q(0, "mutate"), C(1), Q(1), D(0, "eof"), Q(1), D(1), STOP],
     [{"c": "connect", "s": 0, "nohandshake": True}, D(0), C(1), Q(1), D(1), STOP],   # a client that leaves before its handshake
     [C(0), Q(0, "badarg"), Q(0, "unknown"), Q(0), D(0)],   # no stop: the server keeps serving
+    [C(0), Q(0), {"c": "cancelall"}],                      # the application shuts down with a client connected
+    [C(0), D(0), STOP, {"c": "restart"}, C(1), Q(1), D(1), STOP],   # stop, then the same server object serves again
 ]
 
 
